@@ -15,19 +15,20 @@ THREADINGS = {
 
 
 class Variant:
-    def __init__(self, threading="single", key=0, include=0, proto=0, ordered=0, std="c++17", cxx="g++", opt="-O1"):
+    def __init__(self, threading="single", key=0, include=0, proto=0, ordered=0, std="c++17", cxx="g++", opt="-O1", mapk=0):
         self.threading, self.key, self.include, self.proto, self.ordered = threading, key, include, proto, ordered
-        self.std, self.cxx, self.opt = std, cxx, opt
+        self.std, self.cxx, self.opt, self.mapk = std, cxx, opt, mapk
 
     @property
     def name(self):
-        return "q_%s_k%d_i%d_p%d_o%d_%s_%s_%s" % (self.threading, self.key, self.include, self.proto, self.ordered,
-                                                  self.cxx.replace("+", "p"), self.std.replace("+", "p"), self.opt.strip("-"))
+        return "q_%s_k%d_i%d_p%d_o%d_m%d_%s_%s_%s" % (self.threading, self.key, self.include, self.proto, self.ordered, self.mapk,
+                                                      self.cxx.replace("+", "p"), self.std.replace("+", "p"), self.opt.strip("-"))
 
     def job(self):
         return dict(src="seq_q.cpp", out_name=self.name, std=self.std, cxx=self.cxx, opt=self.opt,
                     defines=["VH_THREADING=" + THREADINGS[self.threading], "VH_KEY=%d" % self.key,
-                             "VH_INCLUDE=%d" % self.include, "VH_PROTO=%d" % self.proto, "VH_ORDERED=%d" % self.ordered])
+                             "VH_INCLUDE=%d" % self.include, "VH_PROTO=%d" % self.proto, "VH_ORDERED=%d" % self.ordered,
+                             "VH_MAP=%d" % self.mapk])
 
     def cfg_lines(self):
         l = []
